@@ -148,6 +148,28 @@ fn exec<const BITS: usize, const LIMBS: usize>(
         117 => wr(a.pow_mod(b, c)),
         118 => wr(a.root(s)),
         119 => wr(a.mul_redc(b, c, i1)),
+        120 => wro(a.inv_ring()),
+        121 => wro(a.checked_mul(b)),
+        122 => wr(a.saturating_mul(b)),
+        123 => wrf(a.overflowing_mul(b)),
+        124 => wr(a.div_ceil(b)),
+        125 => wro(a.checked_div(b)),
+        126 => wro(a.checked_rem(b)),
+        127 => wr(a.next_multiple_of(b)),
+        128 => wro(a.checked_next_multiple_of(b)),
+        129 => wro(a.inv_mod(b)),
+        130 => wro(a.lcm(b)),
+        131 => {
+            // dst = gcd; status = 1 when a cofactor has a bit above BITS
+            let (g, x, y, _sign) = a.gcd_extended(b);
+            let excess = |v: &U<BITS, LIMBS>| v.as_limbs().last().map_or(0, |t| t & !U::<BITS, LIMBS>::MASK);
+            (Some(g), u64::from(excess(&x) != 0 || excess(&y) != 0))
+        }
+        132 => wr(a.reduce_mod(b)),
+        133 => wr(a.square_redc(c, i1)),
+        134 => wro(a.checked_pow(b)),
+        135 => wr(a.saturating_pow(b)),
+        136 => wrf(a.overflowing_pow(b)),
         _ => panic!("unknown opcode"),
     }
 }
